@@ -154,6 +154,14 @@ class AggCtx:
             s.ctx.ob(k[0], k[1], st, (detail + f" [{cnt} paths]") if cnt > 1 else detail, where, lhs=lhs if st != HOLDS else None, rhs=rhs if st != HOLDS else None)
 
 
+def sched_env(env):
+    """numeric cross-check environment for scheduler quantities (used only to confirm that two different normal forms
+    are different functions): a realistic configuration instead of O(1) random reals, so that clips and roundings are
+    not saturated."""
+    env.fixed.update({"N": 4096.0 + 37 * env.seed, "fs": 37.5, "Lmin": 5.0, "bmin": 1.5, "Jdes": 60.0, "Kdes": 12.0, "olap": 0.5 - 0.03 * env.seed,
+                      "num_patch_pts": 50.0})
+
+
 def for_paths(ctx, repo, name, fn):
     """run fn(agg_ctx, R, trace) on every path of scheduler `name`; returns number of paths."""
     paths, runs = all_paths(repo, name)
@@ -284,7 +292,7 @@ def check_grid(ctx, R, rules=("R1", "R2", "R3", "R4", "R5"), prefix=()):
         def p(*ls, path=None):
             got, want = want_of(*ls)
             g, w = path_rewrite(to_x(got), path), path_rewrite(to_x(want), path)
-            st, why = compare(g, w)
+            st, why = compare(g, w, prepare=sched_env)
             return st, why, g, w
         return p
     if "R1" in rules:
@@ -402,7 +410,9 @@ def check_bmin_guard(ctx, R, prefix=()):
             if rho.eq(rho_star): return HOLDS, "", rho, rho_star
             return VIOLATED, ("the minimum-bin test compares f/rho with bmin for rho = a resolution that is not the one selected on this path: the cap is applied "
                               "(or skipped) for the wrong bins, so bins can fall below bmin"), rho, rho_star
-        return HOLDS, "", None, None
+        # the compromise was identified on this path but the resolution it selected is never compared with f/bmin
+        return VIOLATED, ("no minimum-bin test is made on this path: the resolution selected by the three-way compromise is used without comparing f/rho with bmin, "
+                          "so on this branch bins fall below bmin"), None, rho_star
     leafwise(ctx, "R7-bmin-enforcement", f"{key}[bmin test]", where, [FL[0]], g, "the bmin cap tests the selected resolution", prefix=prefix)
 
 
@@ -452,7 +462,7 @@ def check_segmentation(ctx, R, rules=("R1", "R2", "R3", "R4"), prefix=()):
         def p(*ls, path=None):
             got, want = want_of(*ls)
             g, w = path_rewrite(to_x(got), path), path_rewrite(to_x(want), path)
-            st, why = compare(g, w)
+            st, why = compare(g, w, prepare=sched_env)
             return st, why, g, w
         return p
     if "R1" in rules:
@@ -485,7 +495,7 @@ def check_segmentation(ctx, R, rules=("R1", "R2", "R3", "R4"), prefix=()):
                 return (HOLDS if v0.iszero() else VIOLATED), "a single segment must start at sample 0", v0, X.const(0)
             want = mk_fn("nearest", [X.var("t") * (N - lx) / (kx - 1)])
             got = canon_round(path_rewrite(dx, path))
-            st, why = compare(got, want)
+            st, why = compare(got, want, prepare=sched_env)
             return st, "starts must be nearest(t*(N-L)/(K-1)), t=0..K-1 (first 0, last N-L, evenly spread) " + why, got, want
         leafwise(ctx, "R2-start-generator", f"{key}[starts]", where, [K, L, dval], gen, "segment starts follow the reference generator", prefix=prefix)
     return F, D
@@ -663,7 +673,7 @@ def check_overlap(ctx, R, prefix=()):
         s0 = dx; s1 = dx.subst({"t": X.var("t") + 1})
         lit = mk_sum("t", kx - 1, (lx - (s1 - s0)) / lx) / (kx - 1)
         if ox.eq(lit): return HOLDS, "", ox, lit
-        st, why = compare(ox, closed)
+        st, why = compare(ox, closed, prepare=sched_env)
         return st, "reported overlap must be 1 - meanstep/L with meanstep = (N-L)/(K-1) (or the literal mean over successive starts) " + why, ox, closed
     leafwise(ctx, "R3-reported-overlap", f"{key}[O]", where, [O, L, K, dval], ov, "reported overlap is the realised mean overlap", prefix=prefix)
 
@@ -814,6 +824,45 @@ def check_zero_divisor(ctx, R, prefix=()):
                 else:
                     ctx.holds("R5-zero-initialised-divisor", c, "guarded or cannot vanish", w2)
     if n == 0: ctx.holds("R5-zero-initialised-divisor", key, "no zero-initialised loop-carried variable is used as a divisor", where)
+    # a guard that speaks about the divisor itself must exclude its zero (off-by-one guards: `if n > 0: x / (n - 1)`)
+    m = 0
+    for ev in S["events"]:
+        if ev[0] != "div": continue
+        _, b, node, assumed = ev
+        for lpath, leaf in pv_leaves(b):
+            bx = to_x(leaf) if not is_opaque(leaf) else None
+            if bx is None or bx.constval() is not None: continue
+            related = []; admits = True
+            for cc, pol in list(assumed) + list(lpath) + list(prefix):
+                d = getattr(cc, "lt", None); e = getattr(cc, "eq", None)
+                try:
+                    if d is not None:
+                        for sg in (1, -1):
+                            k = (d - bx * sg).constval()
+                            if k is not None and k.im == 0:
+                                related.append(cc)
+                                if (k.re < 0) != pol: admits = False
+                                break
+                    elif e is not None:
+                        dd = e[1] - e[2]
+                        for sg in (1, -1):
+                            k = (dd - bx * sg).constval()
+                            if k is not None:
+                                related.append(cc)
+                                if k.iszero() != pol: admits = False
+                                break
+                except Unknown:
+                    continue
+            if not related: continue
+            m += 1
+            c = f"{key}[divisor '{' '.join(ast.unparse(node.right).split())[:50]}']"
+            w2 = f"{SCHED}:{node.lineno}"
+            if admits:
+                ctx.violated("R5-guard-excludes-zero-divisor", c, f"the guards on this path that test the divisor ({'; '.join(cc.text for cc in related)[:160]}) are all satisfied when it is 0: "
+                             "the division is reached with a zero divisor (ZeroDivisionError, or inf/nan under NumPy that then poisons int())", w2)
+            else:
+                ctx.holds("R5-guard-excludes-zero-divisor", c, "the path's guard excludes a zero divisor", w2)
+    if m == 0: ctx.holds("R5-guard-excludes-zero-divisor", key, "no guarded divisor in the scheduler loop", where)
 
 
 def values_cond_fvs(c):
